@@ -22,6 +22,7 @@ def alloc_conf(prop, rule, extra_assume=(), level="model_checking"):
                   "universes are closed alphabets of pool layouts and service variants (DESIGN 5)", "map iteration order owned: sorted"] + list(extra_assume),
  }
 
+NDP_CALLS = [{"file": "internal/layer2/ndp.go", "recv": "n.conn", "method": m, "to": "verifNDP" + m, "pass": "n"} for m in ("ReadFrom", "WriteTo", "JoinGroup", "LeaveGroup")]
 MAP_SPEAKER = ["speaker/layer2_controller.go", "speaker/main.go", "speaker/bgp_controller.go"]
 
 MAP_SPK_FULL = MAP_SPEAKER + ["internal/config/config.go", "internal/k8s/controllers/config_conversion.go", "internal/k8s/controllers/config_controller.go",
@@ -144,7 +145,9 @@ CONF = {
   "parts": [{"name": "main", "pkg": "internal/layer2", "test": "TestVerif_C13", "shards": {"quick": 16, "thorough": 16}, "budget_s": {"quick": 100, "thorough": 1500}, "gomaxprocs": 1},
             {"name": "race", "pkg": "internal/layer2", "test": "TestVerif_C13race", "shards": 1, "race": True, "rewrites": {"go": ["internal/layer2/announcer.go"]}},
             {"name": "ndp-groups", "pkg": "internal/layer2", "test": "TestVerif_C13ndp", "shards": 1, "free": True, "rewrites": {"go": ["internal/layer2/announcer.go"]}},
-            {"name": "spam-loop", "pkg": "internal/layer2", "test": "TestVerif_C13spam", "shards": 1, "free": True, "gomaxprocs": 8, "rewrites": {"go": ["internal/layer2/announcer.go"]}}],
+            {"name": "spam-loop", "pkg": "internal/layer2", "test": "TestVerif_C13spam", "shards": 1, "free": True, "gomaxprocs": 8, "rewrites": {"go": ["internal/layer2/announcer.go"]}},
+            {"name": "ndp-pkt", "pkg": "internal/layer2", "test": "TestVerif_C13ndppkt", "shards": 8, "gomaxprocs": 1,
+             "rewrites": {"go": ["internal/layer2/announcer.go"], "calls": NDP_CALLS}}],
   "rewrites": {"sync": ["internal/layer2/announcer.go"], "go": ["internal/layer2/announcer.go"], "map": ["internal/layer2/announcer.go"], "chan": ["internal/layer2/announcer.go"]},
   "assumptions": ["the NDP packet path is not covered; the NDP decision is the same shouldAnnounce and is covered for the IPv6 address; solicited-node multicast membership is covered by the ndp-groups part where an ICMPv6 listener can be opened on a local interface (the part reports when it had to be skipped)",
                   "background interface scan and spam loop suppressed; the spam loop's effect (gratuitous of a queued advertisement) is delivered by the harness",
